@@ -520,6 +520,7 @@ func init() {
 		}
 		if replay == "" {
 			c07Loaded(meta)
+			c07LoadedExtras(meta)
 			validationHandlerOracles(meta)
 		}
 		meta.NCases = len(cases)
